@@ -4,6 +4,7 @@ import H264.SliceExact
 import H264.SpsRangesAll
 import H264.History
 import H264.SmallProofC16
+import H264.SmallProofC16Slice
 /-! # C16 — Accepted parameter sets and slice headers satisfy documented range invariants
 
 Every statement has the form "the parser returned success on *some* input ⇒ the result is within the bounds", for
@@ -130,5 +131,11 @@ theorem model_bounds_reproduce_code_sps : (List.range 328).map SmallProof.spsFie
   SmallProof.spsFields_model_eq_code
 theorem model_bounds_reproduce_code_pps : (List.range 574).map SmallProof.ppsFieldRow = Generated.ppsFieldRows :=
   SmallProof.ppsFields_model_eq_code
+
+/-- **model = real code across every range check of a slice header, by proof**: ten coded fields of an SP slice header (against a
+PPS with CABAC, redundant_pic_cnt and deblocking control switched on), one at a time swept across its bounds, everything else
+valid (820 inputs): the model parser accepts exactly what the real parser accepted in this run's graph and returns the same field -/
+theorem model_slice_bounds_reproduce_code : (List.range 820).map SmallProof.sliceFieldRow = Generated.sliceFieldRows :=
+  SmallProof.sliceFields_model_eq_code
 
 end C16
